@@ -119,32 +119,32 @@ SHADOW_DIR = os.path.join(TARGET, "shadow", "cooklang")
 SHADOW_BIN = os.path.join(TARGET, "release", "cooksim-shadow")
 SHUTTLE_SYNC = {"Mutex", "MutexGuard", "RwLock", "RwLockReadGuard", "RwLockWriteGuard", "Condvar", "Once", "Barrier", "BarrierWaitResult"}
 
+# The shadow copy gets this module; every path into std::sync / core::sync is redirected to it, so
+# a primitive is caught however it is imported (use-tree, alias, glob, `use std::sync;` + `sync::Mutex`).
+# Explicit re-exports take precedence over the glob, so what shuttle models is shuttle's and the
+# rest (Arc, Weak, LazyLock, OnceLock, PoisonError, ...) stays std's.
+VERIF_SYNC_RS = """//! generated by /verif/check.py (shadow build only)
+#![allow(unused_imports, dead_code)]
+pub use std::sync::*;
+pub use shuttle::sync::{
+    Barrier, BarrierWaitResult, Condvar, Mutex, MutexGuard, Once, OnceState, RwLock, RwLockReadGuard,
+    RwLockWriteGuard, WaitTimeoutResult,
+};
+pub mod atomic {
+    pub use shuttle::sync::atomic::*;
+}
+pub mod mpsc {
+    pub use shuttle::sync::mpsc::*;
+}
+"""
+
 
 def rewrite_sync(text):
-    """std::sync primitives -> shuttle's (Arc, LazyLock, OnceLock, Weak, PoisonError, ... stay std)."""
+    """Redirect every path into std::sync / core::sync to crate::verif_sync (see VERIF_SYNC_RS).
+    Returns (new text, n) where n counts mentions of primitives shuttle models in a file that was
+    redirected (0 => this file's shadow image behaves exactly like the original)."""
     import re
-    n = 0
 
-    def use_group(m):
-        nonlocal n
-        items = split_top(m.group(2))  # commas inside nested braces do not separate items
-        std_items, sh_items = [], []
-        for it in items:
-            head = it.split("::")[0].split(" as ")[0].strip()
-            if head in SHUTTLE_SYNC or head in ("atomic", "mpsc"):
-                sh_items.append(it)
-            else:
-                std_items.append(it)
-        if not sh_items:
-            return m.group(0)
-        n += 1
-        out = []
-        if std_items:
-            out.append(f"{m.group(1)}use std::sync::{{{', '.join(std_items)}}};")
-        out.append(f"{m.group(1)}use shuttle::sync::{{{', '.join(sh_items)}}};")
-        return "\n".join(out)
-
-    # use std::{..., sync::X, sync::{..}, ...};  (use-tree with the sync part nested one level down)
     def split_top(body):
         items, depth, cur = [], 0, ""
         for ch in body:
@@ -161,42 +161,59 @@ def rewrite_sync(text):
             items.append(cur.strip())
         return items
 
+    def sync_trees(rest):
+        """`rest` is what follows `sync` in a use tree ('' | ' as x' | '::X' | '::{..}'); returns use trees."""
+        rest = rest.strip()
+        if rest == "":
+            return ["crate::verif_sync as sync"]
+        if rest.startswith("as "):
+            return [f"crate::verif_sync {rest}"]
+        rest = rest[2:] if rest.startswith("::") else rest
+        subs = split_top(rest[1:-1]) if rest.startswith("{") and rest.endswith("}") else [rest]
+        out, plain = [], []
+        for sub in subs:
+            if sub == "self":
+                out.append("crate::verif_sync as sync")
+            elif sub.startswith("self as "):
+                out.append(f"crate::verif_sync {sub[5:]}")
+            else:
+                plain.append(sub)
+        if plain:
+            out.append(f"crate::verif_sync::{{{', '.join(plain)}}}")
+        return out
+
+    def one_use(prefix, trees):
+        # ONE use item (a preceding #[cfg] attribute keeps applying to all of it)
+        return f"{prefix}use {trees[0]};" if len(trees) == 1 else f"{prefix}use {{{', '.join(trees)}}};"
+
+    # use std::{..., sync::X, sync::{..}, sync, ...};
     def std_tree(m):
-        nonlocal n
-        indent, body = m.group(1), m.group(2)
+        prefix, root, body = m.group(1), m.group(2), m.group(3)
         keep, moved = [], []
         for it in split_top(body):
-            if it.startswith("sync::"):
-                rest = it[len("sync::"):]
-                subs = split_top(rest[1:-1]) if rest.startswith("{") and rest.endswith("}") else [rest]
-                kept_sub = []
-                for sub in subs:
-                    head = sub.split("::")[0].split(" as ")[0].strip()
-                    (moved if head in SHUTTLE_SYNC or head in ("atomic", "mpsc") else kept_sub).append(sub)
-                if kept_sub:
-                    keep.append("sync::{" + ", ".join(kept_sub) + "}")
+            mm = re.match(r"sync\b(.*)$", it, flags=re.S)
+            if mm and (mm.group(1).strip() == "" or mm.group(1).lstrip().startswith(("::", "as "))):
+                moved += sync_trees(mm.group(1))
             else:
                 keep.append(it)
         if not moved:
             return m.group(0)
-        n += 1
-        out = []
-        if keep:
-            out.append(f"{indent}use std::{{{', '.join(keep)}}};")
-        out.append(f"{indent}use shuttle::sync::{{{', '.join(moved)}}};")
-        return "\n".join(out)
+        return one_use(prefix, ([f"{root}::{{{', '.join(keep)}}}"] if keep else []) + moved)
 
-    text = re.sub(r"(^[ \t]*(?:pub(?:\([a-z]+\))? )?)use std::\{((?:[^{};]|\{(?:[^{};]|\{[^{};]*\})*\})*)\};", std_tree, text, flags=re.M)
-    # grouped imports directly from std::sync: use std::sync::{Arc, Mutex, atomic::{..}};
-    text = re.sub(r"(^[ \t]*(?:pub(?:\([a-z]+\))? )?)use std::sync::\{([^{}]*(?:\{[^{}]*\}[^{}]*)*)\};", use_group, text, flags=re.M)
-    # top-level grouped imports: use std::{collections::X, sync::{..}} are left to the path rule below when written in full
-    for name in sorted(SHUTTLE_SYNC):
-        text, k = re.subn(rf"\bstd::sync::{name}\b", f"shuttle::sync::{name}", text)
-        n += k
-    text, k = re.subn(r"\bstd::sync::atomic\b", "shuttle::sync::atomic", text)
-    n += k
-    text, k = re.subn(r"\bstd::sync::mpsc\b", "shuttle::sync::mpsc", text)
-    n += k
+    nested = r"(?:[^{};]|\{(?:[^{};]|\{(?:[^{};]|\{[^{};]*\})*\})*\})*"
+    pre = r"(^[ \t]*(?:pub(?:\([a-z:]+\))? )?)"
+    text = re.sub(pre + r"use (?:::)?(std|core)::\{(" + nested + r")\};", std_tree, text, flags=re.M)
+    # use std::sync; / use std::sync as x; / use std::sync::{self, ..};
+    text = re.sub(pre + r"use (?:::)?(?:std|core)::sync((?:\s+as\s+\w+)?);",
+                  lambda m: one_use(m.group(1), sync_trees(m.group(2))), text, flags=re.M)
+    text = re.sub(pre + r"use (?:::)?(?:std|core)::sync::(\{" + nested + r"\});",
+                  lambda m: one_use(m.group(1), sync_trees("::" + m.group(2))), text, flags=re.M)
+    # every remaining path
+    text, k = re.subn(r"(?<![\w:])(?:::)?(?:std|core)::sync\b", "crate::verif_sync", text)
+    if "crate::verif_sync" not in text:
+        return text, 0
+    code = "\n".join(l for l in text.splitlines() if not l.lstrip().startswith("//"))
+    n = len(re.findall(r"\b(?:Mutex|RwLock|Condvar|Barrier|Once|mpsc|atomic|Atomic[A-Z]\w*)\b", code))
     return text, n
 
 
@@ -224,6 +241,10 @@ def prepare_shadow():
                 open(fp, "w").write(new)
                 total += k
                 files.append(os.path.relpath(fp, SHADOW_DIR))
+    open(os.path.join(SHADOW_DIR, "src", "verif_sync.rs"), "w").write(VERIF_SYNC_RS)
+    librs = os.path.join(SHADOW_DIR, "src", "lib.rs")
+    with open(librs, "a") as f:
+        f.write("\nmod verif_sync;\n")
     # own workspace, no benches, shuttle as a dependency
     ct = open(os.path.join(SHADOW_DIR, "Cargo.toml")).read()
     import re
